@@ -17,6 +17,15 @@ NA = {
 "C20":"DEF text -> extracted data is a pure function of the text; the module is not even imported by the rest of the package.",
 }
 CHECKS = {
+ 'C03': dict(technique='deterministic simulation: capacity-exhaustion fault injection (overflow degraded mode) with paired fault-free runs against a Boolean reference evaluator',
+   text='Seeded exploration of fault plans: a random subset of waveform memories is shrunk to the minimum capacity so that the overflow path (transitions discarded) actually runs, under option knobs, reuse batches and poisoned dead storage; every produced waveform (snapshot when its op finishes) and every captured value is compared with an independent gate-by-gate Boolean evaluator for initial value and final-value parity. The unfaulted clauses of the statement are pure functions and are only sampled as the separately counted fault-free tier.',
+   ref='5.4', note='RefEval written from gate names; dyadic delays <= 64; pure-Python fallback; sampling within <=40 gates, <=4 lanes.'),
+ 'C06': dict(technique='deterministic simulation: configuration swarm over knobs, code paths, seeded GPU thread orders, lanes and storage reuse with poison faults',
+   text='Each seeded case runs as several configuration pairs that must agree bit-for-bit on port-level results: memory reuse (with dead storage poisoned at level boundaries and several batches on one object), fork stripping, CPU vs mock-GPU path under seeded thread orders and the repository launcher (assign/eval/capture/state-transfer kernels, abuf), lane count and lane position, propagation restricted to k lanes (with a lane-isolation monitor), delay-dataset selection modes; LogicSim likewise. One genuine defect (F4) is recorded as a known finding.',
+   ref='5.3', note='Exact 0/1 stimuli; sd=0; pure-Python fallback; the purely configurational pairs (dataset selection, lane position on LogicSim) contain no schedule or fault and are counted as fault-free differential.'),
+ 'C13': dict(technique='deterministic simulation: capacity faults paired with unlimited runs, accumulation under seeded GPU thread orders and real-thread interleavings, capture read-out of recorded state',
+   text='Overflow indicator: capacity-faulted run vs paired capacity-64 run, every output whose indicator is clear must carry exactly the unlimited waveform. Accumulation: abuf must equal the weighted rise/fall count of the waveform snapshots taken when each op finishes, cumulatively over reuse batches, on the CPU path, under seeded mock-GPU thread orders, under fine-grained interleaving (where a non-atomic update loses counts) and for the first k lanes. Capture summary: s[3..8], s[10] against what the stored output waveform encodes for capture times selected on/around actual transitions.',
+   ref='5.5', note='sd=0; "unlimited" = 64 entries (cases where that overflows are skipped and counted); pure-Python fallback.'),
  'C07': dict(technique='deterministic simulation: seeded GPU-thread scheduler (order + interleave) with race/ownership monitors',
    text='Seeded exploration of schedules: every generated circuit/option combination is executed under permuted intra-level op orders (CPU), seeded thread orders of the mock-GPU grid, the repository launcher and real-thread interleavings; a run-time race monitor (M1), shadow-ownership monitor (M2) and lane monitor (M3) judge every access, and signal memory and results must be bit-identical to the canonical order. Sampling, not proof: evidence within the stated bounds (<=40 gates, <=6 lanes).',
    ref='5.1', note='Pure-Python fallback (MockNumba/MockCuda) is what executes; CUDA runtime replaced by SimCuda; a kernel launch is the only barrier.'),
